@@ -2,23 +2,37 @@ import Ogen.JsonCodecModel
 import Ogen.JsonEqualDriver
 /-! Line protocol for the C04 codec model (trusted glue): `jcodec <type> <document>` ↦ `none` when the model's
     decoder refuses the document, else the model's re-encoding of the decoded value.
-    Type tokens (prefix form): `I` `S` `B`, `A<nul>` item, `O<k>` followed by k fields `F<req><nul><hex name>` type.
+    `jaccept <type> <document>` ↦ `accept` / `refuse`: the model's verdict decode-then-validate (C03).
+    Type tokens (prefix form): `I` `S` `B`, `A<nul>` item, `O<k>` followed by k fields `F<req><nul><hex name>` type;
+    keywords ride on the token after colons, `-` for none: `I:min:max:exMin:exMax:multipleOf`, `S:min:max`,
+    `A<nul>:min:max`.
     Document tokens as for C18 (`n t f s<hex> #<hex of the number text> [k {k k<hex>`), numbers are integers. -/
 namespace JCodecDrv
 open JEqG JCodec JEqDrv
 instance : Inhabited Json := ⟨.null⟩
-instance : Inhabited Ty := ⟨.int⟩
+instance : Inhabited Ty := ⟨.int {}⟩
+
+def parseIntO (s : String) : Option Int :=
+  if s == "-" || s == "" then none
+  else if s.startsWith "-" then some (-((s.drop 1).toString.toNat!)) else some s.toNat!
+def parseNatO (s : String) : Option Nat := if s == "-" || s == "" then none else some s.toNat!
+def lenC (parts : List String) : LenC :=
+  { min := (parseNatO (parts.getD 1 "-")).getD 0, max := parseNatO (parts.getD 2 "-") }
 
 partial def readTy (toks : List String) : Ty × List String :=
   match toks with
-  | [] => (.int, [])
+  | [] => (.int {}, [])
   | t :: rest =>
-    if t == "I" then (.int, rest)
-    else if t == "S" then (.str, rest)
-    else if t == "B" then (.bool, rest)
-    else if t.startsWith "A" then
+    let parts := t.splitOn ":"
+    let head := parts.getD 0 ""
+    if head == "I" then
+      (.int { min := parseIntO (parts.getD 1 "-"), max := parseIntO (parts.getD 2 "-"), exMin := parts.getD 3 "0" == "1",
+              exMax := parts.getD 4 "0" == "1", mult := parseNatO (parts.getD 5 "-") }, rest)
+    else if head == "S" then (.str (lenC parts), rest)
+    else if head == "B" then (.bool, rest)
+    else if head.startsWith "A" then
       let (it, r) := readTy rest
-      (.arr (t == "A1") it, r)
+      (.arr (lenC parts) (head == "A1") it, r)
     else
       let k := (t.drop 1).toString.toNat!
       let rec fields (k : Nat) (toks : List String) (acc : List Field) : List Field × List String :=
@@ -90,4 +104,9 @@ def codecLine (line : String) : String :=
   match decode ty j with
   | none => "none"
   | some v => " ".intercalate (showJ (encode ty v))
+def acceptLine (line : String) : String :=
+  let toks := (line.splitOn " ").filter (· ≠ "")
+  let (ty, rest) := readTy toks
+  let (j, _) := readJI rest
+  if accept ty j then "accept" else "refuse"
 end JCodecDrv
